@@ -191,8 +191,9 @@ def classify(diags, mp, unit_name=""):
                 # the properties the clause and the function share, or the function's own if they share none
                 both = props & impl_props
                 props = both if both else impl_props
-            else:
-                props |= impl_props
+            # elsewhere the clause's own tags decide; the implementing function's tags are used only for a clause without any
+            elif not props:
+                props = impl_props
         fails.append({"region": r, "rid": rid, "msg": msg, "line": line, "props": sorted(props),
                       "rendered": d.get("rendered", "")[:4000]})
     return fails, undec
@@ -295,6 +296,10 @@ def trust_scan(path):
 
 
 # --------------------------------------------------------------------------- main
+_UNIT_CACHE = {}
+_EXPANDED = set()
+
+
 def main():
     if len(sys.argv) < 2:
         print(__doc__)
@@ -303,6 +308,19 @@ def main():
     tier = os.environ.get("VERIF_TIER", "quick")
     if "--tier" in sys.argv:
         tier = sys.argv[sys.argv.index("--tier") + 1]
+    if pid == "ALL":
+        # development aid: every registered property from ONE verification of each unit
+        rc = 0
+        global EVID
+        EVID = os.path.join(WORK, "evidence_all")  # the per-property evidence files are written by the registered commands only
+        os.makedirs(EVID, exist_ok=True)
+        for q in sorted(PROPS):
+            rc = max(rc, check_one(q, tier))
+        return rc
+    return check_one(pid, tier)
+
+
+def check_one(pid, tier):
     seed = int(os.environ.get("VERIF_SEED", "0") or 0)
     if pid not in PROPS:
         print("UNDECIDED property=%s reason=no check registered" % pid)
@@ -331,9 +349,14 @@ def main():
                     crates.append(c)
         exp_s = 0.0
         for c in crates:
-            exp_s += expand(c)
+            if c not in _EXPANDED:
+                exp_s += expand(c)
+                _EXPANDED.add(c)
+        todo = [u for u in units if u not in _UNIT_CACHE]
         with concurrent.futures.ThreadPoolExecutor(max_workers=8) as ex:
-            results = list(ex.map(lambda u: verify_unit(u, tier), units))
+            for u, r in zip(todo, ex.map(lambda u: verify_unit(u, tier), todo)):
+                _UNIT_CACHE[u] = r
+        results = [_UNIT_CACHE[u] for u in units]
     except Undecided as e:
         return undecided(str(e))
     except subprocess.TimeoutExpired as e:
@@ -445,6 +468,7 @@ def main():
     json.dump(ev, open(evidence_path, "w"), indent=1)
 
     if new_viol:
+        nprinted = 0
         for (u, rid, f) in new_viol:
             safe = re.sub(r"[^A-Za-z0-9_.-]+", "_", rid)[:120]
             rp = os.path.join(REPLAY, "%s-%s.json" % (pid, safe))
@@ -465,12 +489,11 @@ def main():
                 replay["counterexample"] = cex
                 tail = ""
             json.dump(replay, open(rp, "w"), indent=1)
-            nprinted = globals().setdefault("_nprinted", 0)
             if nprinted < 10:
                 print("VIOLATION property=%s replay=%s obligation=%s%s" % (pid, rp, rid, tail))
-            globals()["_nprinted"] = nprinted + 1
-        if globals().get("_nprinted", 0) > 10:
-            print("(%d further failed obligations of %s; replay files written under %s)" % (globals()["_nprinted"] - 10, pid, REPLAY))
+            nprinted += 1
+        if nprinted > 10:
+            print("(%d further failed obligations of %s; replay files written under %s)" % (nprinted - 10, pid, REPLAY))
         return 1
     print("OK property=%s obligations=%d discharged=%d units=%s wall=%.1fs" % (pid, len(obligations), len(obligations) - nfail, ",".join(units), time.time() - t0))
     return 0
